@@ -1,12 +1,130 @@
 /-
-Driver operations for the Http model (line protocol). Core Lean only.
-`handle st words` returns `none` when the first word is not one of this module's operations.
+Driver operations for the Http model (C16, line protocol). Core Lean only.
+`handle st words` returns `none` when the first word is not `http`.
+
+State: the model's `Env` (header store fed by the same 80-byte headers the implementation ingests, webhook
+table, configured excess) and the switch setting `codeToday`.
+
+  http reset                       store = [genesis], no webhooks                         → ok
+  http add <hex160>                Chains.Add of an 80-byte header (model of C01)         → ok <rows> | bad-header
+  http excess <int>                merkleroot.max_block_height_excess                     → ok
+  http hook <xurl> <0|1>           put a webhook row (active flag) into the table         → ok
+  http req <auth> <handler> <args…>                                                       → <status>|<bodies>|<n>
+        auth     disabled | missing | malformed | unknown | user | admin
+        handler  byhash <xs> | state <xs> | byheight <xs|-> <xs|-> | ancestors <xs> <xs>
+                 | common err | common ok <xs>*
+                 | tips | tiplongest | roots <xs|-> <xs|->
+                 | verify err | verify ok (<xs>:<int>)*
+                 | whpost <0|1> <xs> | whget <xs|-> | whdel <xs|->
+                 | accessget | accesspost | accessdel <xs>
+                 | peers | peerscount | status | noroute | redirect <get|other>
+        strings are `x` + hex of their bytes (each byte one character), an absent parameter is `-`
+        bodies   `empty` or the written documents joined by `+`:
+                 errorDoc:<code> | value | bareString | nonJson
 -/
+import BHS.Model.Http
+import BHS.Model.Header
+
 namespace Driver.Ops.Http
+open BHS BHS.Chain BHS.Http
 
 structure S where
-  unit : Unit := ()
+  env : Env := { store := [BHS.Header.genesisRow], excess := 0, hooks := [] }
+  fx : Fixes := codeToday
 
-def handle (_st : S) (_ws : List String) : Option (S × String) := none
+def cfg : Cfg String := { hashOf := BHS.Header.blockHash, forbidden := [] }
+
+/-- `x<hex>` → the string whose characters are the bytes -/
+def unhex (w : String) : Option String :=
+  match w.toList with
+  | 'x' :: cs => (BHS.Sha256.ofHexList cs).map fun bs => String.ofList (bs.map fun b => Char.ofNat b.toNat)
+  | _ => none
+
+/-- `-` = absent -/
+def optStr (w : String) : Option (Option String) :=
+  if w = "-" then some none else (unhex w).map some
+
+def parseAuth : String → Option AuthIn
+  | "disabled" => some .disabled
+  | "missing" => some .missing
+  | "malformed" => some .malformed
+  | "unknown" => some .unknownToken
+  | "user" => some .user
+  | "admin" => some .admin
+  | _ => none
+
+def parseItem (w : String) : Option (String × Int) :=
+  match w.splitOn ":" with
+  | [root, h] => do
+    let r ← unhex root
+    let k ← h.toInt?
+    pure (r, k)
+  | _ => none
+
+def parseReq : List String → Option Req
+  | ["byhash", h] => Req.headerByHash <$> unhex h
+  | ["state", h] => Req.headerState <$> unhex h
+  | ["byheight", h, c] => do pure (Req.byHeight (← optStr h) (← optStr c))
+  | ["ancestors", h, a] => do pure (Req.ancestors (← unhex h) (← unhex a))
+  | ["common", "err"] => some (.commonAncestor .bindErr)
+  | "common" :: "ok" :: hs => (fun l => Req.commonAncestor (.parsed l)) <$> hs.mapM unhex
+  | ["tips"] => some .tips
+  | ["tiplongest"] => some .tipLongest
+  | ["roots", b, k] => do pure (Req.merkleroots (← optStr b) (← optStr k))
+  | ["verify", "err"] => some (.verify .bindErr)
+  | "verify" :: "ok" :: items => (fun l => Req.verify (.parsed l)) <$> items.mapM parseItem
+  | ["whpost", e, u] => do
+    let b ← (if e = "1" then some true else if e = "0" then some false else none)
+    pure (Req.webhookRegister b (← unhex u))
+  | ["whget", u] => Req.webhookGet <$> optStr u
+  | ["whdel", u] => Req.webhookDelete <$> optStr u
+  | ["accessget"] => some .accessGet
+  | ["accesspost"] => some .accessCreate
+  | ["accessdel", t] => Req.accessDelete <$> unhex t
+  | ["peers"] => some .peers
+  | ["peerscount"] => some .peersCount
+  | ["status"] => some .status
+  | ["noroute"] => some .noRoute
+  | ["redirect", "get"] => some (.redirectSlash true)
+  | ["redirect", "other"] => some (.redirectSlash false)
+  | _ => none
+
+def bodyStr : Body → String
+  | .errorDoc c _ => "errorDoc:" ++ c
+  | .value => "value"
+  | .bareString => "bareString"
+  | .nonJson => "nonJson"
+
+def respStr (r : Response) : String :=
+  let bs := if r.bodies.isEmpty then "empty" else "+".intercalate (r.bodies.map bodyStr)
+  s!"{r.status}|{bs}|{r.bodies.length}"
+
+def handle (st : S) : List String → Option (S × String)
+  | ["http", "reset"] => some ({ st with env := { st.env with store := [BHS.Header.genesisRow], hooks := [] } }, "ok")
+  | ["http", "add", hex] =>
+    match (BHS.Sha256.ofHex hex).bind BHS.Header.parse with
+    | none => some (st, "bad-header")
+    | some x =>
+      let p := plan cfg st.env.store x
+      let s' := applyWrites st.env.store p.2
+      some ({ st with env := { st.env with store := s' } }, s!"ok {s'.length}")
+  | ["http", "excess", e] =>
+    match e.toInt? with
+    | some k => some ({ st with env := { st.env with excess := k } }, "ok")
+    | none => some (st, "bad-args")
+  | ["http", "hook", u, act] =>
+    match unhex u with
+    | some url =>
+      let others := st.env.hooks.filter (fun h => decide (h.url ≠ url))
+      some ({ st with env := { st.env with hooks := others ++ [⟨url, decide (act = "1")⟩] } }, "ok")
+    | none => some (st, "bad-args")
+  | "http" :: "req" :: a :: rest =>
+    match parseAuth a, parseReq rest with
+    | some auth, some r =>
+      let p := step st.fx st.env auth r
+      some ({ st with env := p.2 }, respStr p.1)
+    | _, _ => some (st, "bad-args")
+  | "http" :: _ => some (st, "bad-args")
+  | _ => none
 
 end Driver.Ops.Http
